@@ -457,6 +457,9 @@ func prioGenCase(r *Rng, st *prioStruct, dir string, id int, forced []int) *prio
 	}
 	if r.Chance(15) {
 		c.Argv = append(c.Argv, Pick(r, [][]string{{"--", "-zz=3", "x"}, {"rest", "-x"}, {"--"}, {"-"}, {""}})...)
+	} else if r.Chance(12) {
+		// positional arguments that look like values (after a bare boolean flag they are still positional)
+		c.Argv = append(c.Argv, Pick(r, [][]string{{"false"}, {"0", "x"}, {"true"}, {"f"}, {"1"}, {"F", "T"}, {"5"}, {"a=b"}})...)
 	}
 	if r.Chance(2) { // ungrammatical vector
 		bad := Pick(r, []string{"---x", "-=", "-zz-undefined", "--=v"})
